@@ -52,9 +52,35 @@ func concGen(rng *Rng, i int, tier string) (*ConcCase, error) {
 	for _, k := range strings.Split(os.Getenv("CONC_DROP"), ",") { // development knob: op kinds left out of the workload
 		drop[k] = true
 	}
+	// every third case is a CALM workload: no application removal, reload, node removal, timers, queue cleaning, gang
+	// scheduling or resource updates of existing allocations (the operations behind the recorded ledger-drift findings);
+	// its final state is judged strictly. The other cases use the full mix.
+	calm := i%3 == 0 || os.Getenv("CONC_CALM") == "1" // CONC_CALM: development knob
+	c.Calm = calm
+	seenKey := map[string]bool{}
 	for _, op := range cc.Ops {
 		if drop[op.Kind] {
 			continue
+		}
+		// a release without allocation key terminates the application; a later ask for it can hit the window in which
+		// the application is terminated (queue unset) but still registered: nil dereference in Application.AddAllocationAsk
+		// also from ONE goroutine (sequential finding, reported to the owner of C13): not generated here
+		if op.Kind == "release" && op.Key == "" {
+			continue
+		}
+		if calm {
+			switch op.Kind {
+			case "app_remove", "reload", "node_remove", "node_drain", "fire_ph", "fire_state", "clean":
+				continue
+			case "app_add":
+				op.PhAsk = nil
+			case "alloc":
+				if op.Ph || seenKey[op.Key] {
+					continue
+				}
+				seenKey[op.Key] = true
+				op.TaskGroup = ""
+			}
 		}
 		// a foreign allocation re-sent under another node id is known finding C01-foreign-moved (sequential):
 		// keep the first submission of each foreign key only
@@ -126,7 +152,7 @@ func concCoqCase(c *ConcCase) string {
 			ranks = append(ranks, fmt.Sprintf("(%d,%d%%nat)", v, rk))
 		}
 	}
-	b.WriteString("(mkConc\n   " + concCoqEdges(res) + "\n   [" + strings.Join(singles, "; ") + "] [" + strings.Join(ranks, "; ") + "]\n   [" + strings.Join(cyc, "; ") + "] " + coqBool(res.Observed) + "\n   " + final + "\n   ")
+	b.WriteString("(mkConc\n   " + concCoqEdges(res) + "\n   [" + strings.Join(singles, "; ") + "] [" + strings.Join(ranks, "; ") + "]\n   [" + strings.Join(cyc, "; ") + "] " + coqBool(c.Calm) + " " + coqBool(res.Observed) + "\n   " + final + "\n   ")
 	b.WriteString(fmt.Sprintf("%d %d %d %d)", len(res.Blocked), len(res.GoDeadlock), npanic, len(res.Races)))
 	return b.String()
 }
@@ -428,6 +454,11 @@ func concEngine(o *Opts) {
 		all.Cases = append(all.Cases, *c)
 		// statistics
 		st.Count("mode." + c.Mode)
+		if c.Calm {
+			st.Count("workload.calm")
+		} else {
+			st.Count("workload.full")
+		}
 		if c.GoDeadlock {
 			st.Count("godeadlock.enabled")
 		}
